@@ -26,6 +26,8 @@ func main() {
 		switch *layer {
 		case "tracer":
 			driveTracer(*seed, *n, *size, em)
+		case "conc":
+			driveConc(*seed, *n, *size, em)
 		case "diff":
 			driveDiff(*seed, *n, *size, em)
 		case "calltracer":
